@@ -800,6 +800,18 @@ def c08_r1(ctx: Ctx, rule):
         res.fail(rule.id, "merge-touches-source::%s::%s" % (e[1], e[0].replace(HOP, ">")), ctx.loc(fq, node),
                  "%s has a %s effect on the source (%s): %s" % (short(q), e[1], e[2], " -> ".join(eff.explain(q, e))),
                  "after d.unified() a record of d carries the attributes of its namesakes, or d's bundle declares new prefixes")
+    # what is merged: *all* attributes of every record of the group (formal ones included - an optional formal argument may be
+    # given by a later statement only), i.e. the whole-attribute view, not a partial one
+    whole = attr_slot(ctx)
+    for c in merges:
+        a = resolve_local(fi.node, c.args[0]) if c.args else None
+        partial = [x.attr for x in ast.walk(a) if isinstance(x, ast.Attribute) and x.attr in ("extra_attributes", "formal_attributes", "args")] if a is not None else []
+        allattrs = a is not None and any(isinstance(x, ast.Attribute) and (x.attr == "attributes" or x.attr == whole) for x in ast.walk(a))
+        res.ob("%s: merges %s: the record's whole attribute list: %s" % (short(q), norm(c.args[0])[:50] if c.args else "?", allattrs and not partial))
+        if partial and not allattrs:
+            res.fail(rule.id, "merge-partial-attributes::%s" % partial[0], ctx.loc(q, c),
+                     "%s merges only %s of the records sharing an identifier: the other attributes of later statements are dropped" % (short(q), partial[0]),
+                     "activity(ex:a) followed by activity(ex:a, t0, t1): the unified activity has no times")
     # raw stores (bypassing the single-value guard) are C05.R1's business; here: the merge call is the normaliser
     from .paths import find_normaliser
 
@@ -1367,3 +1379,165 @@ def unified_is_fresh(ctx: Ctx, rule):
 for _p, _r in (("C15", "C15.R7"), ("C14", "C14.R7"), ("C08", "C08.R13")):
     RULES.setdefault(_p, []).append(Rule(_r, "unified() always builds a unified copy, bundles included (no shortcut that returns the source)", 3, unified_is_fresh, "F-OWN",
                                          "what is drawn / converted is the unified form of every bundle"))
+
+
+# C07, C14 and C15 are stated against the *unified* document: the core rules of unified() are necessary conditions of theirs too
+for _p, _n in (("C07", 12), ("C14", 8), ("C15", 8)):
+    RULES.setdefault(_p, []).append(Rule("%s.R%d" % (_p, _n), "unified() merges the whole attribute lists of same-kind records on a fresh record (shared with C08.R1)", 1, c08_r1, "F-OWN",
+                                         "the unified form this property is stated against carries every attribute of every statement"))
+    RULES.setdefault(_p, []).append(Rule("%s.R%d" % (_p, _n + 1), "unified() groups records by kind and identifier (shared with C08.R2)", 1, c08_r2, "F-PATH",
+                                         "records of different kinds sharing an identifier stay apart, same-kind ones are merged wherever they stand"))
+
+
+# ===================================================================================== a list is not changed while it is being walked (C10.R16 = C02.R15 = C13.R7)
+def no_mutation_while_iterating(ctx: Ctx, rule):
+    """`for x in L:` with `L.remove(x)` / `del L[i]` / `L.insert(..)` in the body skips (or repeats) elements.  The writers order a
+    record's attributes with sorted_attributes(), whose loop removes the pairs it has emitted from the list it walks - correct only
+    because it walks a *copy* (`for e in list(attributes)`)."""
+    res = RuleResult()
+    n = 0
+    for q, fi in ctx.p.functions.items():
+        if fi.module.startswith("scripts.") or isinstance(fi.node, ast.Lambda):
+            continue
+        for loop in walk_function(fi.node):
+            if not isinstance(loop, ast.For) or not isinstance(loop.iter, ast.Name):
+                continue
+            L = loop.iter.id
+            muts = [c for b in loop.body for c in ast.walk(b) if isinstance(c, ast.Call) and isinstance(c.func, ast.Attribute) and isinstance(c.func.value, ast.Name) and c.func.value.id == L
+                    and c.func.attr in ("remove", "pop", "insert", "append", "extend", "clear", "sort", "reverse")]
+            muts += [d for b in loop.body for d in ast.walk(b) if isinstance(d, ast.Delete) and any(isinstance(t, ast.Subscript) and isinstance(t.value, ast.Name) and t.value.id == L for t in d.targets)]
+            # a change followed, in the same statement list, by break / return / raise ends the walk: nothing is skipped
+            def leaves_loop_after(m):
+                for lst in [x for y in ast.walk(loop) for x in (getattr(y, "body", None), getattr(y, "orelse", None), getattr(y, "finalbody", None)) if isinstance(x, list)]:
+                    for i, st in enumerate(lst):
+                        if any(z is m for z in ast.walk(st)):
+                            if any(isinstance(t, (ast.Break, ast.Return, ast.Raise)) for t in lst[i:]):
+                                return True
+                return False
+
+            muts = [m for m in muts if not leaves_loop_after(m)]
+            if not muts:
+                continue
+            n += 1
+            res.ob("%s: `for .. in %s` changes %s in its body (%s)" % (short(q) if q.count(".") > 2 else q, L, L, norm(muts[0])[:40]))
+            res.fail(rule.id, "list-changed-while-walked::%s::%s" % (q, L), ctx.loc(q, muts[0]),
+                     "%s walks `%s` and changes it in the loop body (%s): elements are skipped" % (short(q) if q.count(".") > 2 else q, L, norm(muts[0])[:40]),
+                     "a record with two prov:label values: the second one is emitted after prov:value and the foreign attributes, breaking the PROV-XML child order")
+    # the instance this rule was confirmed on: sorted_attributes walks a copy
+    sq = M + ".sorted_attributes"
+    if sq not in ctx.p.functions:
+        raise AnalysisError("anchor vanished: function %s" % sq)
+    copies = [l for l in walk_function(ctx.fn(sq).node) if isinstance(l, ast.For) and isinstance(l.iter, (ast.Call, ast.Subscript))]
+    res.ob("sorted_attributes walks a copy of the list it removes from: %s" % bool(copies))
+    res.ob("loops that change the list they walk: %d" % n, nontrivial=False)
+    return res
+
+
+for _p, _r, _d in (("C10", "C10.R16", "attributes are emitted in the schema's order: none is skipped by the ordering helper"), ("C02", "C02.R15", "every attribute value is written"),
+                   ("C13", "C13.R7", "the same attribute list is ordered the same way on every export")):
+    RULES.setdefault(_p, []).append(Rule(_r, "no list is changed while it is being walked (sorted_attributes walks a copy)", 1, no_mutation_while_iterating, "F-PATH", _d))
+
+
+# ===================================================================================== value sets are heterogeneous: no ordering without a key (C15.R10 = C13.R8)
+def no_ordering_of_value_sets(ctx: Ctx, rule):
+    """The values of one attribute may be of different kinds (str, Literal, QualifiedName, int ...), which Python cannot order: min /
+    max / sorted without a key on a value set raises TypeError for such records (prov_to_dot only catches ProvException)."""
+    res = RuleResult()
+    mm = attr_slot(ctx)
+    n = 0
+    for q, fi in ctx.p.functions.items():
+        if fi.module.startswith("scripts.") or isinstance(fi.node, ast.Lambda):
+            continue
+        for c in calls_in(fi.node):
+            if call_name(c) not in ("min", "max", "sorted") or not isinstance(c.func, ast.Name) or not c.args or any(k.arg == "key" for k in c.keywords):
+                continue
+            a = resolve_local(fi.node, c.args[0])
+            from_values = any(isinstance(x, ast.Subscript) and isinstance(x.value, ast.Attribute) and x.value.attr == mm for x in ast.walk(a)) or \
+                any(isinstance(x, ast.Call) and call_name(x) in ("get_attribute", "get_asserted_types") for x in ast.walk(a))
+            if not from_values:
+                continue
+            n += 1
+            res.ob("%s orders a set of attribute values without a key: %s" % (short(q), norm(c)[:50]))
+            res.fail(rule.id, "value-set-ordered::%s" % q, ctx.loc(q, c), "%s applies %s to the values of an attribute, which may be of kinds Python cannot compare" % (short(q), norm(c)[:40]),
+                     "an element with prov:label values 'x' and Literal('y', langtag='en'): prov_to_dot(use_labels=True) raises TypeError")
+    res.ob("min/max/sorted without key over attribute value sets: %d" % n, nontrivial=False)
+    lq = ctx.p.lookup_method(RECORD, "label")
+    if lq is None:
+        raise AnalysisError("anchor vanished: ProvRecord.label")
+    res.ob("ProvRecord.label picks a value with first(): %s" % any(call_name(c) == "first" for q2 in ctx.helper_closure(lq, 1) for c in calls_in(ctx.fn(q2).node)))
+    return res
+
+
+for _p, _r, _d in (("C15", "C15.R10", "prov_to_dot returns DOT text for every document, whatever kinds its label values have"), ("C13", "C13.R8", "exports do not depend on an ordering of unorderable values")):
+    RULES.setdefault(_p, []).append(Rule(_r, "attribute value sets are never ordered without a key", 1, no_ordering_of_value_sets, "F-PATH", _d))
+
+
+# ===================================================================================== round-5 rules around copies between containers
+def c12_r9(ctx: Ctx, rule):
+    """The bundle returned by ProvBundle.unified() is a new, free-standing object: its constructor is not given the source's document
+    (or any other REF parameter taken from self) - otherwise what the derived bundle reports (its default namespace, its document)
+    changes when the source's document changes."""
+    res = RuleResult()
+    n = 0
+    for q in (BUNDLE + ".unified", DOC + ".unified"):
+        fi = ufn(ctx, q)
+        for c in calls_in(fi.node):
+            r = ctx.p.resolve_dotted(fi.module, c.func) if dotted(c.func) else None
+            if not (r and r[0] == "class" and r[1] in (BUNDLE, DOC)):
+                continue
+            n += 1
+            refs = [k for k in c.keywords if k.arg in ("document", "parent", "bundle") and any(isinstance(x, ast.Name) and x.id == "self" for x in ast.walk(k.value))]
+            res.ob("%s constructs its result with %s: linked to the source: %s" % (short(q), norm(c)[:70], bool(refs)))
+            for k in refs:
+                res.fail(rule.id, "result-linked-to-source::%s::%s" % (q, k.arg), ctx.loc(q, c), "%s builds its result with %s=%s: the derived object stays attached to the source's %s" % (short(q), k.arg, norm(k.value), k.arg),
+                         "b2 = b.unified(); doc.set_default_namespace(u): b2.get_default_namespace() changes although b2 was never touched")
+    if not n:
+        raise AnalysisError("no result construction found in unified()")
+    return res
+
+
+RULES.setdefault("C12", []).append(Rule("C12.R9", "the result of unified() is constructed without a reference to the source's document", 2, c12_r9, "F-OWN",
+                                        "derived bundles do not observe later changes of the source's document"))
+
+
+def c09_r13(ctx: Ctx, rule):
+    """(a) The literal converter hands native Python values back as they are: no arm returns int(x) / float(x) / bool(x) of its argument
+    (bool is an int for isinstance and for numbers.Integral, so such an arm turns True into 1 when a record is re-created).
+    (b) A bundle identifier travels between containers as the QualifiedName object: it is never passed on as str(identifier),
+    whose prefix would be resolved again in the receiving container's scope."""
+    res = RuleResult()
+    q = RECORD + "._auto_literal_conversion"
+    if q not in ctx.p.functions:
+        raise AnalysisError("anchor vanished: function %s" % q)
+    n = 0
+    for q2 in ctx.helper_closure(q, 2):
+        fi = ctx.fn(q2)
+        if fi.module != M or fi.cls != RECORD:
+            continue  # the datatype parsers convert *lexical forms* (strings): int(value) there is the exact conversion
+        subj = (fi.params[1:] if fi.cls and not fi.is_static else fi.params)
+        for r in walk_function(fi.node):
+            if isinstance(r, ast.Return) and isinstance(r.value, ast.Call) and isinstance(r.value.func, ast.Name) and r.value.func.id in ("int", "float", "bool", "complex") and r.value.args and isinstance(r.value.args[0], ast.Name) and r.value.args[0].id in subj:
+                n += 1
+                res.fail(rule.id, "native-value-converted::%s" % r.value.func.id, ctx.loc(q2, r), "%s returns %s: a value of another kind admitted by the guarding test (True is an int) is converted" % (short(q2), norm(r.value)),
+                         "Literal('true', xsd:boolean) is stored as True; flattened()/update() re-create the record through the converter and store 1: PROV-N prints 1 instead of '1' %% xsd:boolean")
+    res.ob("the literal converter converts native values through int()/float()/bool(): %d arm(s)" % n)
+    m = 0
+    for q2, fi in ctx.p.functions.items():
+        if fi.module != M or not fi.cls or fi.cls not in (BUNDLE, DOC) or isinstance(fi.node, ast.Lambda):
+            continue
+        for c in calls_in(fi.node):
+            if not (isinstance(c.func, ast.Attribute) and isinstance(c.func.value, ast.Name) and c.func.value.id in ("self",) or isinstance(c.func, ast.Attribute) and call_name(c) in ("bundle", "add_bundle", "get_record", "valid_qualified_name", "new_record")):
+                continue
+            for a in list(c.args) + [k.value for k in c.keywords]:
+                if isinstance(a, ast.Call) and isinstance(a.func, ast.Name) and a.func.id == "str" and a.args and isinstance(a.args[0], ast.Attribute) and a.args[0].attr in ("identifier", "_identifier"):
+                    m += 1
+                    res.fail(rule.id, "identifier-reprinted::%s" % q2, ctx.loc(q2, c), "%s passes %s on: the printed form is resolved again, in the receiving container's scope" % (short(q2), norm(a)),
+                             "d.update(other) where other has bundle ex:b1 and d binds ex to another URI: the bundle is appended under d's URI for ex")
+    res.ob("identifiers passed between containers in printed form: %d" % m)
+    return res
+
+
+RULES.setdefault("C09", []).append(Rule("C09.R13", "records and bundle identifiers are re-created from the objects themselves: no int()/float() conversion of native values, no str(identifier) re-resolution", 2, c09_r13, "F-OWN",
+                                        "flattened/update/add_bundle conserve value kinds and bundle URIs"))
+RULES.setdefault("C05", []).append(Rule("C05.R14", "the literal converter hands native Python values back unchanged (shared with C09.R13)", 2, c09_r13, "F-OWN",
+                                        "a bool stays a bool whichever entry path stored it"))
